@@ -360,3 +360,39 @@ package ops
 //@ func ReLU
 //@   tags C02
 //@   ensures new_result: err == nil ==> result != nil && fresh(result)
+
+// ---------------------------------------------------------------------------------------
+// C11: Cast
+
+//@ func createNewBacking
+//@   tags C11,C02
+//@   ensures same_length: len(result) == len(backing) && (result == nil || fresh(result))
+
+//@ spec cast_supported(to int32) bool = to == 1 || to == 11 || to == 3 || to == 5 || to == 6 || to == 7 || to == 2 || to == 4 || to == 12 || to == 13
+//@ spec cast_source(d dtype) bool = d == Float32 || d == Float64 || d == Int8 || d == Int16 || d == Int32 || d == Int64 || d == Uint8 || d == Uint16 || d == Uint32 || d == Uint64
+//@ spec cast_target_is(to int32, d dtype) bool = (to == 1 && d == Float32) || (to == 11 && d == Float64) || (to == 3 && d == Int8) || (to == 5 && d == Int16) || (to == 6 && d == Int32) ||
+//@        (to == 7 && d == Int64) || (to == 2 && d == Uint8) || (to == 4 && d == Uint16) || (to == 12 && d == Uint32) || (to == 13 && d == Uint64)
+
+//@ func convertBacking
+//@   tags C11,C02
+//@   ensures unsupported_refused: !cast_supported(dataType) ==> err != nil && result == nil
+//@   ensures supported_converted: cast_supported(dataType) ==> err == nil
+//@   ensures to_float32: dataType == 1 ==> typeof(result) == tagof("[]float32") && len(unbox(result, "[]float32")) == len(backing)
+//@   ensures to_float64: dataType == 11 ==> typeof(result) == tagof("[]float64") && len(unbox(result, "[]float64")) == len(backing)
+//@   ensures to_int8: dataType == 3 ==> typeof(result) == tagof("[]int8") && len(unbox(result, "[]int8")) == len(backing)
+//@   ensures to_int16: dataType == 5 ==> typeof(result) == tagof("[]int16") && len(unbox(result, "[]int16")) == len(backing)
+//@   ensures to_int32: dataType == 6 ==> typeof(result) == tagof("[]int32") && len(unbox(result, "[]int32")) == len(backing)
+//@   ensures to_int64: dataType == 7 ==> typeof(result) == tagof("[]int64") && len(unbox(result, "[]int64")) == len(backing)
+//@   ensures to_uint8: dataType == 2 ==> typeof(result) == tagof("[]uint8") && len(unbox(result, "[]uint8")) == len(backing)
+//@   ensures to_uint16: dataType == 4 ==> typeof(result) == tagof("[]uint16") && len(unbox(result, "[]uint16")) == len(backing)
+//@   ensures to_uint32: dataType == 12 ==> typeof(result) == tagof("[]uint32") && len(unbox(result, "[]uint32")) == len(backing)
+//@   ensures to_uint64: dataType == 13 ==> typeof(result) == tagof("[]uint64") && len(unbox(result, "[]uint64")) == len(backing)
+
+//@ func ConvertTensorDtype
+//@   tags C11,C02
+//@   requires t != nil
+//@   scope extents_positive: dims_positive(t)
+//@   ensures unsupported_target_refused: !cast_supported(newType) ==> err != nil && result == nil
+//@   ensures unsupported_source_refused: !cast_source(dtype(t)) ==> err != nil && result == nil
+//@   ensures converted: cast_supported(newType) && cast_source(dtype(t)) ==> err == nil && result != nil && fresh(result) && same_shape(result, t) &&
+//@          cast_target_is(newType, dtype(result))
